@@ -32,7 +32,7 @@ CONSTANTS
   LateConn,    \* highest-numbered connections that the client adds later (AddConn); {} = all present
   TimerEp      \* the endpoint whose inactivity timer is modelled ("none": timers off)
 
-FeatAll == {"close", "sessclose", "fault", "blockaccept", "blockread", "swrite", "lazy", "gates"}
+FeatAll == {"close", "sessclose", "fault", "blockaccept", "blockread", "swrite", "lazy", "gates", "readfrom"}
 DevAll  == {"OpenCheckThenAct", "CountAfterPublish", "TimerCheckThenAct", "AddConnPublish", "AddConnNoMutex",
             "NoticeFailLeak", "RecvCheckThenAct"}
 
@@ -254,31 +254,34 @@ OpenCount ==
 HasHandle(e, s) == s \in handles[e]
 
 \* one data frame of e's stream s over connection c; left = frames the call still owes afterwards
-SendDataFrame(e, s, c, left) ==
+SendDataFrame(e, s, c, left, rf) ==
   LET out == SendOutcome(e, c) IN
   /\ IF out = "ok"
        THEN /\ net' = [net EXCEPT ![ConnOf(e, c)][e] = Append(@, Frame(s, wseq[e][s], 0, wcount[e][s] + 1))]
             /\ wcount' = [wcount EXCEPT ![e][s] = @ + 1]
             /\ wbusy' = [wbusy EXCEPT ![e][s] = left]
-            /\ lastEv' = [a |-> "Write", ok |-> TRUE, e |-> e, s |-> s, c |-> c, done |-> (left = 0)]
+            /\ lastEv' = [a |-> "Write", ok |-> TRUE, e |-> e, s |-> s, c |-> c, done |-> (left = 0), rf |-> rf]
             /\ UNCHANGED SessV
        ELSE /\ Apply(PassiveOn(Snap, e, "senderr"))
             /\ wbusy' = [wbusy EXCEPT ![e][s] = 0]
-            /\ lastEv' = [a |-> "Write", ok |-> FALSE, e |-> e, s |-> s, c |-> c, done |-> TRUE]
+            /\ lastEv' = [a |-> "Write", ok |-> FALSE, e |-> e, s |-> s, c |-> c, done |-> TRUE, rf |-> rf]
             /\ UNCHANGED <<net, wcount>>
   /\ wseq' = [wseq EXCEPT ![e][s] = @ + 1]           \* the number is consumed even if the send fails
   /\ UNCHANGED <<connUp, deplexOn, dpend, pool, AccV, RdV, AppV, nextId, timerDecided, openpc, addpc>>
 
-WriteCall(e, s, k, c) ==
+\* rf = TRUE: the bytes come through Stream.ReadFrom (io.Copy-style relays: common.Copy, client piper), which takes
+\* one chunk from its reader, tests the closed flag, and sends the chunk as one frame under the write mutex
+WriteCall(e, s, k, c, rf) ==
   /\ HasHandle(e, s) /\ wbusy[e][s] = 0
+  /\ rf => k = 1
   /\ wcount[e][s] + k <= Units
   /\ IF stClosed[e][s] \/ (Unordered /\ k > 1)
        THEN \* refused: closed stream (ErrBrokenStream) / datagram larger than one frame (ErrShortBuffer)
-            /\ lastEv' = [a |-> "Write", ok |-> FALSE, e |-> e, s |-> s, c |-> 0, done |-> TRUE]
+            /\ lastEv' = [a |-> "Write", ok |-> FALSE, e |-> e, s |-> s, c |-> 0, done |-> TRUE, rf |-> rf]
             /\ UNCHANGED <<NetV, pool, SessV, AccV, WrV, RdV, AppV, nextId, timerDecided, openpc, addpc>>
-       ELSE SendDataFrame(e, s, c, k - 1)
+       ELSE SendDataFrame(e, s, c, k - 1, rf)
 
-WriteFrame(e, s, c) == wbusy[e][s] > 0 /\ SendDataFrame(e, s, c, wbusy[e][s] - 1)
+WriteFrame(e, s, c) == wbusy[e][s] > 0 /\ SendDataFrame(e, s, c, wbusy[e][s] - 1, FALSE)
 
 -----------------------------------------------------------------------------
 (* closeStream(active): CAS, close the receive buffer, closing frame, tombstone, count-- *)
@@ -562,7 +565,8 @@ Internal ==
 Env ==
   \/ OpenCheck
   \/ \E e \in E, s \in Streams, k \in 1..MaxWrite, c \in Conns :
-        c \in Picks(e) /\ (e = "c" \/ "swrite" \in Feat) /\ WriteCall(e, s, k, c)
+        c \in Picks(e) /\ (e = "c" \/ "swrite" \in Feat) /\
+        \E rf \in (IF "readfrom" \in Feat THEN BOOLEAN ELSE {FALSE}) : WriteCall(e, s, k, c, rf)
   \/ \E e \in E, s \in Streams, c \in Conns : c \in Picks(e) /\ CloseStream(e, s, c)
   \/ \E c \in Conns, e \in E : Deliver(c, e) \/ RecvCheck(c, e)
   \/ \E e \in E, s \in Streams : ReadNow(e, s) \/ ReadBlock(e, s)
